@@ -813,3 +813,10 @@ def x3(cx: Cx, ob: Ob) -> None:
     from ..rules import cached_derivations
 
     cached_derivations(cx, ob)
+
+
+@obligation("C11-X1", "OWN (shared with C10): remap_curie_prefixes reads its input through synonym_to_prefix and renames copies of its records - the two agree only while no other converter holds the SAME Record objects (a merge into that one adds names to the input's records behind its tables): no function stores into, mutates or captures the Record objects of a converter it is given", floor=6)
+def x1(cx: Cx, ob: Ob) -> None:
+    from .c10 import check_no_aliasing
+
+    check_no_aliasing(cx, ob)
